@@ -68,9 +68,13 @@ def _gen_prep_screen(w, single_sample_plates):
     control = w.choice(["", "control"])
     rows = []
     plate_no = 0
+    bigs = w.random() < 0.05  # one sample with more experiments / plates than any plausible block size
     for s in samples:
         n_rows = w.choice([1, 2, 3, 4, 5, 6, 8, 12])
         n_pl = w.randint(1, min(4, n_rows))
+        if bigs and s == samples[0]:
+            n_rows = w.choice([40, 70, 130])
+            n_pl = w.choice([2, 9, 33])
         plates = [f"pl{plate_no + k}" for k in range(n_pl)]
         plate_no += n_pl
         for _ in range(n_rows):
